@@ -22,6 +22,20 @@ Theorem c14_progress : forall lim d t c g p,
 Proof. exact reply_reaches_waiter. Qed.
 Print Assumptions c14_progress.
 
+(* a reply that overtakes its caller — routed after the call registered but before it reached
+   receive() — is kept through whatever else happens on the connection (other callers beyond the
+   pending limit, late replies of cancelled calls, orphans, the discard rule) and is the reply
+   the call returns *)
+Theorem c14_early_reply : forall lim d t c g p t2,
+  let s := rrun true lim d rst0 t in
+  aget c (r_calls s) = Some (PWaiting g) -> buf_get c g (r_bufs s) = None ->
+  Forall (not_own c) t2 ->
+  exists s1 s3, rstep true lim d s (LDeliver c p) = Some s1 /\
+    rstep true lim d (rrun true lim d s1 t2) (LWake c) = Some s3 /\
+    aget c (r_calls s3) = Some (PDone (CPayload p)).
+Proof. exact early_reply_delivered. Qed.
+Print Assumptions c14_early_reply.
+
 (* the pinned discard rule is refuted: with more calls in flight than the pending limit a waiting
    call's channel is discarded and its reply is never delivered *)
 Theorem c14_discard_refuted :
